@@ -76,6 +76,16 @@ var seeds = []struct {
 	{1, `{% macro M %}<b>{{ a }}</b>{% end %}{% macro N js %}var a = {{ a }};{% end macro %}`},
 	{1, `{% macro Css(s string) css %}a{b:{{ s }}}{% end %}{{ render "x.html" }}`},
 	{1, `{% show M; using %}<i>x</i>{% end %}{% var a = show 1; using markdown %}# t{% end %}`},
+	// base context of a macro or using body with a result type: after a raw block, a tag, script, style, nested blocks
+	{1, `{% macro M(v string) js %}{% raw %} {% end %}f({{ v }}){% end %}{{ w }}<a b="{{ x }}">`},
+	{1, `{% macro M(v string) markdown %}<b>t</b> {{ v }} <script>{{ j }}</script>{{ w }}<style>{{ c }}</style>{{ z }}{% end %}<i>{{ y }}</i>`},
+	{5, `{% macro M html %}{% if a %}<p>{{ a }}</p>{% raw %}x{% end raw %}{% end if %}{{ b }}{% macro %}{% end %}<a>{{ c }}</a>` + "\n    {{ d }}"},
+	{3, `{% show f; using html %}<script>var a = {{ a }};</script>{{ b }}{% for %}<b c={{ c }}>{% end %}{{ d }}{% end %}</script>{{ e }}`},
+	{1, `{% macro A css %}{% macro B json %}<x>{{ a }}{% end %}<y>{{ b }}{% end %}<z>{{ c }}{% end %}{% end %}<w>{{ d }}`},
+	// escaped backslash before the closing quote; U+2028 / U+2029 end a JS line comment
+	{1, `<script>var p = "C:\\"; var x = {{ s }}; var q = '\\\'{{ t }}';</script><style>a{b:"\\";c:{{ u }}}</style>`},
+	{1, `<script type="application/ld+json">{"a":"\\","b":{{ v }},"c":"\\\"{{ w }}"}</script>`},
+	{3, "// a\u2028 var s = \"{{ s }}\"; // b\u2029'{{ t }}' // c\xe2\x80 \"{{ u }}\"\xe2\x80"},
 	{1, `{% if a %}<a {% if b %}href="{{ c }}"{% end %}>{% else %}x{% end if %}`},
 	{1, `{% for i, v := range s %}{{ i }}{% break %}{% continue %}{% end for %}`},
 	{1, `{%% a := 5` + "\n" + `b := a % 2 %%}{{ a %% b }}`},
@@ -135,8 +145,8 @@ var Dict = []string{
 	"{{ render \"p.html\" }}", "<script>", "</script>", "</SCRIPT >", "<script type=\"", "application/ld+json", "text/javascript",
 	"module", "text/css", "<style>", "</style>", "</style\n", "<style type='", "<![CDATA[", "]]>", "<a href=\"", "<a href=", "<img src=",
 	" srcset='", " data-src=", " xmlns:x=\"", " data-x=", "<form action=\"", "http://", "https://", "http://a.b", "\"", "'", "`",
-	"\\", "\\\"", "\\'", "\n", "\r", "\r\n", "\n\r", "\t", "    ", " ", "/*", "*/", "//", "#!", "\xef\xbb\xbf", "\x00", "é", "世",
-	"\u00a0", "\u2028", "\u0085", "ſ", "\u212a", "\ufffe", "\U0001ffff", "\xff", "\xc3", "\xe2\x82", "\xed\xa0\x80", "\xf4\x90\x80\x80", "\x80", "0x", "0b1",
+	"\\", "\\\\", "\\\"", "\\'", "\n", "\r", "\r\n", "\n\r", "\t", "    ", " ", "/*", "*/", "//", "#!", "\xef\xbb\xbf", "\x00", "é", "世",
+	"\u00a0", "\u2028", "\u2029", "\xe2\x80", "\u0085", "ſ", "\u212a", "\ufffe", "\U0001ffff", "\xff", "\xc3", "\xe2\x82", "\xed\xa0\x80", "\xf4\x90\x80\x80", "\x80", "0x", "0b1",
 	"0o8", "1e", "1_", "0_x", ".5", "1.e+", "0x1.p", "0x.p1", "08", "09i", "'\\x", "\"\\u12", "'\\U0010FFFF'", "'\\400'", "\"\\q\"", "''", "'ab'",
 	"<", ">", "/", "=", "/>", "<a", "<a ", "</", "!", "?", ".", ",", ";", ":", "(", ")", "[", "]", "{", "}", "}}}", "%", "%%", "#", "&^=", "<<=", "...", "<-",
 	"++", "--", ":=", "==", "!=", "&&", "||", "a", "_", "x1", "break", "return", "fallthrough", "continue", "func", "package main\n",
